@@ -170,6 +170,8 @@ def block_check(ctx, res, f, o, w, functional, solver, q, case):
     uf, vals, cnt = res["fcst_sorted"], res["regression_values"], res["fcst_counts"]
     if int(np.sum(cnt)) != len(fa):
         ctx.violation("fcst_counts does not sum to the number of valid pairs", case, len(fa), int(np.sum(cnt)))
+    if len(uf) == len(cnt) and any(int(c) != int(np.sum(fa == x)) for x, c in zip(uf, cnt)):
+        ctx.violation("fcst_counts is not the number of valid pairs per forecast", case, [int(np.sum(fa == x)) for x in uf], [int(c) for c in cnt])
     if len(uf) != len(set(fa.tolist())) or any(a >= b for a, b in zip(uf, uf[1:])):
         ctx.violation("unique forecasts are not the sorted distinct valid forecasts", case, sorted(set(fa.tolist())), uf.tolist())
     if any(b < a - 1e-9 for a, b in zip(vals, vals[1:])):
@@ -227,7 +229,8 @@ def fit_case(ctx, M, rng, i):
     res = impl[1]
     ctx.case(case, int(np.sum(res["fcst_counts"])) >= 2)
     ctx.count("fit:ok")
-    if not summary_matches(res, m):
+    tie_ok = summary_matches(res, m)
+    if not tie_ok:
         if intobs and functional != "mean":
             mt = ctx.model("c15_fit", enc_args(shape, shape, None if w is None else shape, f, o, w, functional, solver, q, None, Fraction(9, 10), True))
             if summary_matches(res, mt):
@@ -235,20 +238,35 @@ def fit_case(ctx, M, rng, i):
                               case, str(m[2]), res["regression_values"].tolist(), finding_key=FINDING_INT)
                 return
         ctx.tie_fail("isotonic_fit vs model", case, summary_str(res), str(m))
-        return
-    # the interpolating function: at, between and outside the forecasts
-    uf = res["fcst_sorted"]
-    xs = sorted(set([float(x) for x in uf] + [float(uf[0]) - 1, float(uf[-1]) + 0.5] + [float((a + b) / 2) for a, b in zip(uf, uf[1:])]))
-    got = res["regression_func"](np.array(xs))
-    mf = core.dec_nums(ctx.model("c15_func", enc_list([a, enc_nums(xs)])))
-    if not core.close_list(got, mf):
-        ctx.tie_fail("regression_func vs model", dict(case, x=xs), got.tolist(), [str(v) for v in mf])
-    block_check(ctx, res, f, o, w, functional, solver, q, case)
+    else:
+        # the interpolating function: at, between and outside the forecasts
+        uf = res["fcst_sorted"]
+        xs = sorted(set([float(x) for x in uf] + [float(uf[0]) - 1, float(uf[-1]) + 0.5] + [float((a + b) / 2) for a, b in zip(uf, uf[1:])]))
+        got = res["regression_func"](np.array(xs))
+        mf = core.dec_nums(ctx.model("c15_func", enc_list([a, enc_nums(xs)])))
+        if not core.close_list(got, mf):
+            ctx.tie_fail("regression_func vs model", dict(case, x=xs), got.tolist(), [str(v) for v in mf])
+    # ---- property predicates on the implementation (evaluated whether or not the tie holds) ----
+    try:
+        block_check(ctx, res, f, o, w, functional, solver, q, case)
+    except Exception as ex:  # noqa: BLE001  (a broken implementation may return arrays the predicates cannot index)
+        ctx.violation("result dictionary is inconsistent (" + type(ex).__name__ + ")", case, "consistent fcst_sorted / fcst_counts / regression_values", summary_str(res))
     if functional == "mean":
-        # exact oracle: max over j<=i of min over k>=i of the weighted average of pooled groups j..k
-        muf, mm = ctx.model("c15_maxmin", enc_list([enc_nums(f), enc_nums(o), "none" if w is None else enc_nums(w)]))
-        if not (core.close_list(res["fcst_sorted"], core.dec_nums(muf)) and core.close_list(res["regression_values"], core.dec_nums(mm))):
-            ctx.violation("mean-functional fit differs from the max-min of block averages", case, [str(v) for v in core.dec_nums(mm)], res["regression_values"].tolist())
+        # exact oracles: max over j<=i of min over k>=i of the weighted average of (pooled groups | tidied items) j..k
+        muf, mm, mi = ctx.model("c15_maxmin", enc_list([enc_nums(f), enc_nums(o), "none" if w is None else enc_nums(w)]))
+        for name, vals in (("pooled groups", mm), ("tidied sequence (proved: C15_pav_mean_is_maxmin)", mi)):
+            if not (core.close_list(res["fcst_sorted"], core.dec_nums(muf)) and core.close_list(res["regression_values"], core.dec_nums(vals))):
+                ctx.violation("mean-functional fit differs from the max-min of block averages over " + name, case,
+                              [str(v) for v in core.dec_nums(vals)], res["regression_values"].tolist())
+    # pairs with a NaN are ignored: same fit as with those pairs deleted (relation between public calls)
+    valid = [k for k in range(n) if not (np.isnan(f[k]) or np.isnan(o[k]) or (w is not None and np.isnan(w[k])))]
+    if len(valid) < n and valid and not intobs:
+        r3 = M.isotonic_fit(np.array([f[k] for k in valid]), np.array([o[k] for k in valid]),
+                            **kwargs(functional, solver, q, None if w is None else np.array([w[k] for k in valid])))
+        ctx.case(("nan-deleted", repr(case)))
+        if not (np.array_equal(r3["fcst_sorted"], res["fcst_sorted"]) and np.array_equal(r3["fcst_counts"], res["fcst_counts"])
+                and np.allclose(r3["regression_values"], res["regression_values"], rtol=1e-9, atol=1e-12, equal_nan=True)):
+            ctx.violation("pairs containing a NaN are not ignored: the fit differs from the fit with those pairs deleted", case, summary_str(r3), summary_str(res))
     # order / shape independence on the implementation (symmetric solvers)
     if functional is not None or solver in SYMMETRIC:
         perm = list(range(n))
@@ -273,8 +291,26 @@ def pav_case(ctx, M, rng):
         got = M._contiguous_ir(np.array(y), py_solver(name, p), weight=None if w is None else np.array(w))
         m = core.dec_nums(ctx.model("c15_pav", enc_list([enc_nums(y), "none" if w is None else enc_nums(w), enc_solver(name, p)])))
         ctx.case(("pav", tuple(y), None if w is None else tuple(w), name, p), n >= 2)
+        case = {"fn": "_contiguous_ir", "y": y, "weight": w, "solver": [name, p]}
         if not core.close_list(got, m):
-            ctx.tie_fail("_contiguous_ir vs PAV state machine", {"y": y, "weight": w, "solver": [name, p]}, got.tolist(), [str(v) for v in m])
+            ctx.tie_fail("_contiguous_ir vs PAV state machine", case, got.tolist(), [str(v) for v in m])
+        # property predicates on the implementation: non-decreasing; each maximal constant block = solver(block)
+        if any(b < a - 1e-9 for a, b in zip(got, got[1:])):
+            ctx.violation("_contiguous_ir: the fit is not non-decreasing", case, "non-decreasing", got.tolist())
+        if name in ("mean", "max", "min", "quantile"):       # solver [y] = y
+            sv = py_solver(name, p)
+            i = 0
+            while i < n:
+                j = i
+                while j + 1 < n and abs(got[j + 1] - got[i]) <= 1e-9 * max(1.0, abs(got[i])):
+                    j += 1
+                ya = np.array(y[i:j + 1])
+                expect = sv(ya) if w is None else sv(ya, np.array(w[i:j + 1]))
+                if abs(expect - got[i]) > 1e-9 * max(1.0, abs(expect)):
+                    ctx.violation("_contiguous_ir: a maximal constant block differs from the solver applied to the block's observations",
+                                  dict(case, block=[i, j]), expect, float(got[i]))
+                    break
+                i = j + 1
     ctx.count("pav_sequences")
 
 
@@ -354,6 +390,26 @@ def boot_case(ctx, M, rng, i):
     if not ok:
         ctx.tie_fail("bootstrap results / confidence band vs model (resampling replayed from the numpy seed)", case,
                      {"rows": got_rows.tolist(), "lower": res["confidence_band_lower_values"].tolist(), "upper": res["confidence_band_upper_values"].tolist()}, str(m)[:600])
+    # each bootstrap row is the fit of the resampled (fcst, obs, weight) triples, read at the tidied forecasts
+    # (relation between public calls; resampling replayed from the numpy seed)
+    base = M.isotonic_fit(np.array(f), np.array(o), **kwargs(functional, solver, q, None if w is None else np.array(w)))
+    fa, oa = np.array(f), np.array(o)
+    wa = None if w is None else np.array(w)
+    keep = ~(np.isnan(fa) | np.isnan(oa)) if wa is None else ~(np.isnan(fa) | np.isnan(oa) | np.isnan(wa))
+    fa, oa = fa[keep], oa[keep]
+    wa = None if wa is None else wa[keep]
+    order = np.lexsort((-oa, fa))
+    fa, oa = fa[order], oa[order]
+    wa = None if wa is None else wa[order]
+    if functional is not None or solver in SYMMETRIC:
+        for k, sel in enumerate(sels):
+            sel = np.array(sel)
+            rk = M.isotonic_fit(fa[sel], oa[sel], **kwargs(functional, solver, q, None if wa is None else wa[sel]))
+            row = rk["regression_func"](fa)
+            if not np.allclose(row, got_rows[k], rtol=1e-9, atol=1e-12, equal_nan=True):
+                ctx.violation("a bootstrap row is not the fit of the resampled (fcst, obs, weight) triples", dict(case, row=k, resample=sel.tolist()),
+                              row.tolist(), got_rows[k].tolist())
+                break
     lo_i, up_i = res["confidence_band_lower_values"], res["confidence_band_upper_values"]
     both = ~(np.isnan(lo_i) | np.isnan(up_i))
     if np.any(lo_i[both] > up_i[both] + 1e-12):
@@ -450,6 +506,14 @@ def malformed_case(ctx, M, rng):
     agree = (impl[0] == "err" and impl[1] == m) or (impl[0] == "ok" and not core.is_err(m))
     if not agree:
         ctx.tie_fail("isotonic_fit argument checks vs model", case, str(impl[1])[:200], str(m)[:200])
+    # the docstring's Raises section (ValueError): positive weights, 0 < quantile_level < 1, 0 < confidence_level < 1,
+    # bootstraps a positive integer, exactly one of functional/solver, no pair left
+    documented = {"wneg": w is not None, "wzero": w is not None, "qlevel": True, "qweight": True, "bothnone": True, "both": True,
+                  "boot0": True, "bootneg": True, "conf0": True, "conf1": True, "confbig": True, "allnan": True, "functional": True}
+    if documented.get(kind) and kind not in ("shape", "wshape") and impl != ("err", "err:ValueError"):
+        # (a NaN-free negative/zero weight is only present when the mutated slot was not NaN)
+        if not (kind in ("wneg", "wzero") and not any(x <= 0 for x in w if not np.isnan(x))):
+            ctx.violation("documented ValueError not raised (" + kind + ")", case, "err:ValueError", str(impl[1])[:120])
 
 
 def known_cases(ctx, M):
@@ -468,27 +532,27 @@ def run(ctx):
     M = I()
     rng = ctx.rng
     known_cases(ctx, M)
-    for _ in range(ctx.n(60, 700)):
+    for _ in range(ctx.n(200, 2500)):
         if not ctx.time_left():
             break
         pav_case(ctx, M, rng)
-    for i in range(ctx.n(220, 2500)):
+    for i in range(ctx.n(700, 9000)):
         if not ctx.time_left():
             break
         fit_case(ctx, M, rng, i)
-    for _ in range(ctx.n(60, 600)):
+    for _ in range(ctx.n(150, 2000)):
         if not ctx.time_left():
             break
         xarray_case(ctx, M, rng)
-    for i in range(ctx.n(60, 600)):
+    for i in range(ctx.n(150, 2000)):
         if not ctx.time_left():
             break
         boot_case(ctx, M, rng, i)
-    for _ in range(ctx.n(80, 800)):
+    for _ in range(ctx.n(200, 2500)):
         if not ctx.time_left():
             break
         quantile_case(ctx, M, rng)
-    for _ in range(ctx.n(120, 1000)):
+    for _ in range(ctx.n(300, 3000)):
         if not ctx.time_left():
             break
         malformed_case(ctx, M, rng)
